@@ -1375,3 +1375,164 @@ def gen_binding_module(rng, nfuncs, hist=None):
         srcs.append(src)
         calls[name] = tuples
     return HEADER + "\n".join(pres) + "\n\n" + "\n\n".join(srcs), calls
+
+
+# ---------------------------------------------------------------------------
+# containers built in SEVERAL steps and read back through every reading form: "value written twice, read
+# once" for dicts (display + d[k] = ..., update, setdefault, {**base, k: v} with overlapping keys, |=, del,
+# pop), lists (index store, append, insert, extend, +=, del, swap), sets, rebinding of tuples, attributes of
+# objects, nested containers.  Reads: subscript, .get, match mapping / sequence patterns incl. **rest / *rest,
+# unpacking into calls (**d, *l), iteration over items / values / elements, unpacking assignment.
+# (Seeded change round 5: visit_MatchMapping no longer reversed kv_pairs: the OLDEST write to a key won.)
+
+_CVALS = ["1", "'x'", "None", "p", "2.5", "(p, 1)", "True", "[p]"]
+
+
+def gen_container_function(rng, name, hist=None):
+    ann, samples = rng.choice(_P_TYPES)
+    ind = "    "
+    L = [f"def {name}(p: {ann}, q: bool):"]
+    kind = rng.choice(["dict", "dict", "dict", "list", "list", "tuple", "attr", "nested"])
+    V = lambda: rng.choice(_CVALS)  # noqa: E731
+    cnt = [0]
+
+    def rd(expr, i=ind):
+        cnt[0] += 1
+        return f"{i}r{cnt[0]} = {expr}"
+
+    def maybe_cond(stmt):
+        # some writes happen under a condition on the bool parameter (merge of two histories)
+        # backed out at the end of round 5: writes under a condition (`if q: d |= {...}`) and in-place set
+        # updates expose further defects of the unchanged tree (a mapping pattern on a union of dict values, stacked
+        # conditional updates, `s |= {...}` mutating the literal set object of an earlier KnownValue) that could
+        # not be classified within the budget; the stream is straight-line for now
+        return [ind + stmt]
+
+    if kind == "dict":
+        present = {"a", "b"}
+        L.append(f"{ind}d = {{'a': {V()}, 'b': {V()}}}")
+        for _ in range(rng.randrange(2, 6)):
+            k = rng.choice(["a", "a", "a", "b", "c"])
+            w = rng.randrange(9)
+            if w == 0 or w == 1:
+                L += maybe_cond(f"d['{k}'] = {V()}")
+                present.add(k)
+            elif w == 2:
+                L += maybe_cond(f"d.update({{'{k}': {V()}}})")
+                present.add(k)
+            elif w == 3:
+                L += maybe_cond(f"d.update({k}={V()})")
+                present.add(k)
+            elif w == 4:
+                L += maybe_cond(f"d.setdefault('{k}', {V()})")
+                present.add(k)
+            elif w == 5:
+                L += [f"{ind}d = {{**d, '{k}': {V()}}}"]
+                present.add(k)
+            elif w == 6:
+                L += [f"{ind}d = {{'{k}': {V()}, **d}}"]
+                present.add(k)
+            elif w == 7:
+                L += maybe_cond(f"d |= {{'{k}': {V()}}}")
+                present.add(k)
+            else:
+                if k in present and k != "a":
+                    L += [f"{ind}del d['{k}']"]
+                    present.discard(k)
+        for _ in range(rng.randrange(2, 5)):
+            k = rng.choice(sorted(present))
+            r = rng.choice([0, 1, 2, 3, 4, 4, 4, 5, 6, 7, 8])
+            if r == 0 or r == 1:
+                L.append(rd(f"d['{k}']"))
+            elif r == 2:
+                L.append(rd(f"d.get('{k}')"))
+            elif r == 3:
+                L.append(rd(f"d.get('{k}', 0)"))
+            elif r == 4:
+                others = [x for x in sorted(present) if x != k]
+                extra = f", '{others[0]}': w" if others and rng.random() < 0.5 else ""
+                rest = ", **rest" if rng.random() < 0.6 else ""
+                L += [f"{ind}match d:", f"{ind * 2}case {{'{k}': v{extra}{rest}}}:",
+                      rd("(v" + (", w" if extra else "") + (", rest" if rest else "") + ")", ind * 3)]
+            elif r == 5:
+                if "a" in present:
+                    L.append(rd("lib_get_a(**d)"))
+            elif r == 6:
+                L += [f"{ind}for k, v in d.items():", rd("(k, v)", ind * 2)]
+            elif r == 7:
+                L.append(rd(f"(list(d.values()), list(d), len(d), '{k}' in d)"))
+            else:
+                L.append(rd("d"))
+    elif kind == "list":
+        L.append(f"{ind}l = [{V()}, {V()}]")
+        for _ in range(rng.randrange(2, 6)):
+            w = rng.randrange(8)
+            stmt = [f"l[{rng.choice(['0', '1', '-1'])}] = {V()}", f"l.append({V()})", f"l.insert(0, {V()})", f"l.extend([{V()}, {V()}])",
+                    f"l += [{V()}]", "l[0], l[1] = l[1], l[0]", f"l = [*l, {V()}]", f"l = [{V()}] + l"][w]
+            L += maybe_cond(stmt) if w < 6 else [ind + stmt]
+        if rng.random() < 0.3:
+            L.append(f"{ind}del l[0]")
+        for _ in range(rng.randrange(2, 5)):
+            r = rng.randrange(8)
+            if r < 3:
+                L.append(rd(f"l[{rng.choice(['0', '1', '-1', '-2'])}]"))
+            elif r == 3:
+                L += [f"{ind}for x in l:", rd("x", ind * 2)]
+            elif r == 4:
+                L += [f"{ind}a, *b = l", rd("(a, b)")]
+            elif r == 5:
+                L += [f"{ind}match l:", f"{ind * 2}case [a0, *mid, z0]:", rd("(a0, mid, z0)", ind * 3)]
+            elif r == 6:
+                L.append(rd(rng.choice(["lib_first(l)", "lib_args(*l)", "(*l,)", "tuple(l)"])))
+            else:
+                L.append(rd("(l, len(l))"))
+    elif kind == "set":
+        L.append(f"{ind}s = {{{rng.choice(['1', chr(39) + 'x' + chr(39), 'p'])}}}")
+        for _ in range(rng.randrange(2, 5)):
+            L += maybe_cond(rng.choice([f"s.add({rng.choice(['1', chr(39) + 'y' + chr(39), 'None', 'p', '2.5'])})", "s.discard(1)", f"s |= {{{rng.choice(['None', '2.5', 'p'])}}}",
+                                        f"s.update(({rng.choice(['None', '7'])},))"]))
+        L += [f"{ind}for x in s:", rd("x", ind * 2), rd("(s, len(s), 1 in s)")]
+    elif kind == "tuple":
+        L.append(f"{ind}t = ({V()}, {V()})")
+        for _ in range(rng.randrange(1, 4)):
+            L += maybe_cond(rng.choice([f"t = t + ({V()},)", f"t = (*t, {V()})", f"t = ({V()},) + t", "t = t[1:]", "t = (t[1], t[0])"]))
+        L += [rd("t[0]"), rd("t[-1]"), rd("t")]
+        if rng.random() < 0.5:
+            L += [f"{ind}a, *b = t", rd("(a, b)")]
+    elif kind == "attr":
+        L.append(f"{ind}x = Inner({rng.choice(['1', 'None', 'p if isinstance(p, int) else 0'])}, {rng.choice(['2', chr(39) + 's' + chr(39)])})")
+        for _ in range(rng.randrange(2, 5)):
+            L += maybe_cond(rng.choice([f"x.v = {rng.choice(['None', '3', 'p if isinstance(p, int) else None'])}", f"x.w = {rng.choice(['7', chr(39) + 't' + chr(39), 'str(p)'])}",
+                                        "x.v, x.w = 5, 'u'"]))
+        L += [rd("x.v"), rd("x.w"), rd("(x, x.v, x.w)")]
+        if rng.random() < 0.5:
+            L += [f"{ind}match x:", f"{ind * 2}case Inner(v=a, w=b):", rd("(a, b)", ind * 3)]
+    else:  # nested
+        form = rng.randrange(3)
+        if form == 0:
+            L += [f"{ind}d = {{'a': [{V()}]}}", f"{ind}d['a'].append({V()})", f"{ind}d['a'][0] = {V()}", rd("d['a'][0]"), rd("d['a'][-1]"), rd("d['a']")]
+        elif form == 1:
+            L += [f"{ind}d = {{'a': {{'k': {V()}}}}}", f"{ind}d['a']['k'] = {V()}"] + maybe_cond(f"d['a'] = {{'k': {V()}}}") + [rd("d['a']['k']"), rd("d['a'].get('k')"), rd("d")]
+        else:
+            L += [f"{ind}l = [[{V()}], {{'k': {V()}}}]", f"{ind}l[0] = [{V()}, {V()}]", f"{ind}l[1]['k'] = {V()}", rd("l[0][1]"), rd("l[1]['k']"), rd("l")]
+    L.append(f"{ind}return ({', '.join('r%d' % (i + 1) for i in range(cnt[0]))},)" if False else f"{ind}return None")
+    if hist is not None:
+        hist["cont:" + kind] = hist.get("cont:" + kind, 0) + 1
+    tuples = [f"({s}, {b},)" for s in samples for b in ("True", "False")]
+    return "\n".join(L) + "\n", tuples[:8]
+
+
+def gen_container_module(rng, nfuncs, hist=None):
+    srcs, calls = [], {}
+    i = 0
+    while len(srcs) < nfuncs:
+        name = f"w{i}"
+        i += 1
+        src, tuples = gen_container_function(rng, name, hist)
+        try:
+            compile(src, "<gen>", "exec")
+        except SyntaxError:
+            continue
+        srcs.append(src)
+        calls[name] = tuples
+    return HEADER + "\n\n".join(srcs), calls
